@@ -38,6 +38,7 @@ import SwcVerif.Model.AlgoRunMstFront
 import SwcVerif.Model.AlgoRunSholl
 import SwcVerif.Model.AlgoRunNodeFeat
 import SwcVerif.Model.AlgoRunResample
+import SwcVerif.Model.AlgoRunResampleTree
 import SwcVerif.Model.AlgoRunRaster
 import SwcVerif.Model.AlgoRunImgIo
 import SwcVerif.Model.AlgoRunParse
@@ -111,6 +112,7 @@ def dispatch (op : String) (args : List String) : String :=
   | "gnodefeat" => AlgoRun.handleNodeFeat args
   | "gpoprows" | "gpoprows3" => AlgoRun.handlePopRows (op == "gpoprows3") args
   | "giso" | "glin" | "gsmooth" => AlgoRun.handleResample op args
+  | "gresamtree" => AlgoRun.handleResamTree args
   | "gsamplers" | "gscene" | "graster" => AlgoRun.handleRaster op args
   | "gimgsave" | "gimgload" | "gimgnd" | "gimgio" | "gimgget" | "gimgread" => AlgoRun.handleImgIo op args
   | "gparse" => AlgoRun.handleParse args
